@@ -51,6 +51,8 @@ TClamp     == IsEvent("clamp") /\ Clamp /\ Consume
               /\ vg'.nlx = E.nlx /\ vg'.nly = E.nly /\ vg'.dlx = E.dlx /\ vg'.dly = E.dly
 TSpectrum  == IsEvent("spectrum") /\ SpectrumStage /\ Consume
               /\ E.shape = <<vg'.tny, vg'.tnx>>
+TModes     == IsEvent("modes") /\ ModesStage /\ Consume
+              /\ E.ilx = vg'.ilx /\ E.ily = vg'.ily               \* wavenumber carried by every retained slot
 TRaisePrec == IsEvent("raise") /\ E.kind = "precision" /\ RaisePrecision /\ Consume
 TThreads   == IsEvent("thread_setup") /\ ThreadSetup /\ Consume
 TSweep1    == IsEvent("kernel_call") /\ Sweep1 /\ Consume
@@ -74,7 +76,7 @@ TReturn    == /\ IsEvent("return") /\ vpc = "return" /\ Consume
 \* steps without an event
 TSilent    == (Alloc \/ AnalyticBranch \/ MeanDone \/ IndexError) /\ Silent
 
-TraceNext == \/ TRaiseOdd \/ TPad \/ TClamp \/ TSpectrum \/ TRaisePrec \/ TThreads \/ TSweep1 \/ TSweep2
+TraceNext == \/ TRaiseOdd \/ TPad \/ TClamp \/ TSpectrum \/ TModes \/ TRaisePrec \/ TThreads \/ TSweep1 \/ TSweep2
              \/ TMeanStore \/ TUntrunc \/ TCrop \/ TReturn \/ TSilent
 
 TraceSpec == TraceInit /\ [][TraceNext]_tvars
